@@ -72,7 +72,7 @@ RULE = (
     "random orientation, sometimes both), or a callable; values multiples of 60.  A Hamiltonian case is "
     "non-trivial when some site has degree >= 2 and an on-site coefficient is non-zero there; a site-info case "
     "when some site has degree >= 2 and some edge is given with its larger end first."
-)
+        '; complex hoppings next to real on-site terms (linearity oracle on the real code)')
 ANCHORS = {
     "hamiltonians.py": [
         "make_edge_factory",
